@@ -83,9 +83,26 @@ EXPECT = {"raw": 1000, "unc": 1000, "clo": 2000, "fake": 3000, "rawalias": 1000}
 SITE_N = {0: 0, 1: 1, 2: 2, 3: 3, 4: 1, 5: 2, 6: None, 7: 7}
 SITE_WHEN = {0: True, 1: True, 2: True, 3: True, 4: True, 5: False, 6: True, 7: False}
 
+MARKERS = ("MAPOVER", "UNWIND", "THREAD", "RXDENY")
+def plain(lifetimes):
+    """the operations proper: context / environment markers removed; `E:<slot>:<k>` (the fake! expression of call site k evaluated now, installed
+    later) removed and `T:<t>:@<slot>` rewritten to `T:<t>:<k>`: for the model and the judges, what counts is WHEN the pair is installed"""
+    slots = {}; out = []
+    for ops in lifetimes:
+        cur = []
+        for o in ops:
+            if o in MARKERS: continue
+            if o.startswith("E:"):
+                _, slot, k = o.split(":"); slots[slot] = k; continue
+            t = o.split(":")
+            if t[0] == "T" and t[2].startswith("@"): o = f"T:{t[1]}:{slots[t[2][1:]]}"
+            cur.append(o)
+        out.append(cur)
+    return out
+
 def translate(h, lifetimes):
     """symbolic ops -> model ops; returns (model lifetimes string, symtab, expected value of each synthetic fake)"""
-    lifetimes = [[o for o in ops if o not in ("MAPOVER", "UNWIND", "THREAD", "RXDENY")] for ops in lifetimes]
+    lifetimes = plain(lifetimes)
     addr = dict(h["addr"])
     synth_val = {}
     out = []
